@@ -173,3 +173,12 @@ def check_handover_footprint():
 
 
 REG.syntactic_check("own#handover_tables_are_only_accessed_key_wise", P, check_handover_footprint)
+
+
+def _bounded_render_ids(tier, repo):
+    from harness.bounded_render_ids import run
+    return run(repo, 2)
+
+
+REG.bounded_check("bounded#root_elements_carry_exactly_the_ids_of_their_instances", P, _bounded_render_ids,
+                  note="component_post_render's hand-over and the renderer closures are not under contract: 203 pages of nesting depth <= 3 over components with one root, two roots, text before the root, a root that is another component and a nested non-root component are rendered for real, parsed, and every root element must carry exactly the render ids of the instances it is a root of (distinct instances, distinct ids; non-root elements carry none)")
